@@ -61,7 +61,7 @@ type c11Method struct {
 }
 
 // server-streaming methods, by id (registerService handles a service's streams after its unary methods)
-var c11Streaming = map[int]bool{11: true}
+var c11Streaming = map[int]bool{11: true, 12: true}
 
 const (
 	c11GET  = 1
@@ -95,10 +95,13 @@ var c11Methods = []c11Method{
 	// a '*'-kind rule and a GET rule of the same method at one node: both are stored, removal takes both
 	{9, "SvcD", "D2", 9, &c11Rule{verb: "*", tmpl: "/c11/dd/{id}", key: c11Key{20, 0, true}, add: []c11Rule{
 		{verb: "GET", tmpl: "/c11/dd/{id}", key: c11Key{20, c11GET, true}}}}},
+	// (node numbers of implicit bindings and of rules share one space: 1..9 / 30.. implicit, 11..29 rules)
 	// a service whose unary method is fine and whose streaming method has a rule that cannot be bound: the
 	// registration fails after the unary method has been handled, and must leave nothing behind
-	{10, "SvcY", "Y1", 10, &c11Rule{verb: "GET", tmpl: "/c11/yy/{id}", key: c11Key{21, c11GET, true}}},
-	{11, "SvcY", "Y2", 11, &c11Rule{verb: "GET", tmpl: "/c11/yz/{nofield}", key: c11Key{22, c11GET, false}}},
+	{10, "SvcY", "Y1", 30, &c11Rule{verb: "GET", tmpl: "/c11/yy/{id}", key: c11Key{21, c11GET, true}}},
+	{11, "SvcY", "Y2", 31, &c11Rule{verb: "GET", tmpl: "/c11/yz/{nofield}", key: c11Key{22, c11GET, false}}},
+	// a (valid) server-streaming method: proxied streams have their own handler construction
+	{12, "SvcS", "S1", 32, &c11Rule{verb: "GET", tmpl: "/c11/ss/{id}", key: c11Key{23, c11GET, true}}},
 }
 
 // descriptor sets: id -> services (a service carries all its methods)
@@ -114,13 +117,21 @@ var c11Descs = map[int][]string{
 	9:  {"SvcD"},         // '*'-kind rules (not in the alphabet of the exhaustive histories: c11StarHistories)
 	10: {"SvcY"},         // a valid unary method and a streaming method that cannot be bound (c11StarHistories)
 	11: {"SvcA"},         // SvcA as redeployed without its method A2 (c11Omit): same service names as 1, another method set
+	12: {"SvcS", "SvcA"}, // a server-streaming method beside unary ones
+	13: {"SvcA"},         // SvcA in a newer deployment whose A1 has one more binding (c11Extra); only in c11StarHistories
 }
+
+// a descriptor set may declare a method with MORE bindings than the catalogue entry has (a newer deployment): the extra
+// additional bindings, by descriptor set and method id. In the catalogue string such a method appears as a variant
+// V<desc*100+id>:<id>:<node>:<rules> and the descriptor set lists it as v<desc*100+id>.
+var c11Extra = map[int]map[int][]c11Rule{13: {1: {{verb: "GET", tmpl: "/c11/ax/{id}", key: c11Key{24, c11GET, true}}}}}
 
 // methods a descriptor set leaves out of its services
 var c11Omit = map[int]map[int]bool{11: {2: true}}
 
 // the file being built leaves these methods out (set around the build of a descriptor set)
 var c11omitNow map[int]bool
+var c11extraNow map[int][]c11Rule
 
 // descriptor sets whose Req message is {tenant = 3; id = 1} (declaration order differs, numbers do not)
 var c11Reordered = map[int]bool{8: true}
@@ -175,6 +186,15 @@ func c11Catalogue() string {
 	for _, id := range ids {
 		var ms []string
 		for _, m := range c11MethodsOf(id) {
+			if extra := c11Extra[id][m.id]; len(extra) > 0 && m.rule != nil {
+				ks := []string{c11KeyStr(m.rule.key)}
+				for _, a := range append(append([]c11Rule{}, m.rule.add...), extra...) {
+					ks = append(ks, c11KeyStr(a.key))
+				}
+				parts = append(parts, fmt.Sprintf("V%d:%d:%d:%s", id*100+m.id, m.id, m.node, strings.Join(ks, ">")))
+				ms = append(ms, fmt.Sprintf("v%d", id*100+m.id))
+				continue
+			}
 			ms = append(ms, strconv.Itoa(m.id))
 		}
 		parts = append(parts, fmt.Sprintf("D%d=%s", id, strings.Join(ms, "+")))
@@ -209,6 +229,13 @@ func c11Targets() []c11Target {
 					continue
 				}
 				add(r.key, r.verb, url, body, m.id)
+			}
+		}
+	}
+	for _, byM := range c11Extra {
+		for mid, rs := range byM {
+			for _, r := range rs {
+				add(r.key, r.verb, strings.NewReplacer("{id}", "7").Replace(r.tmpl), "", mid)
 			}
 		}
 	}
@@ -268,7 +295,7 @@ func c11BuildFileWith(path string, svcs []string, common protoreflect.FileDescri
 			}
 			if m.rule != nil && !m.rule.cfg {
 				dr := dynRule{Verb: m.rule.verb, Tmpl: m.rule.tmpl, Body: m.rule.body}
-				for _, a := range m.rule.add {
+				for _, a := range append(append([]c11Rule{}, m.rule.add...), c11extraNow[m.id]...) {
 					dr.Additional = append(dr.Additional, dynRule{Verb: a.verb, Tmpl: a.tmpl, Body: a.body})
 				}
 				mo := &descriptorpb.MethodOptions{}
@@ -402,9 +429,9 @@ func c11Setup() *c11Env {
 			e.more[id] = append(fs[1:], common)
 			continue
 		}
-		c11omitNow = c11Omit[id]
+		c11omitNow, c11extraNow = c11Omit[id], c11Extra[id]
 		e.files[id] = c11BuildFileWith(fmt.Sprintf("c11/d%d.proto", id), svcs, nil, c11Reordered[id])
-		c11omitNow = nil
+		c11omitNow, c11extraNow = nil, nil
 	}
 	e.local = c11BuildFile("c11/local.proto", []string{"SvcA", "SvcL", "SvcY"})
 	for i := 0; i < 4; i++ {
@@ -612,6 +639,9 @@ func c11HTTP(m *larking.Mux, t c11Target) string {
 		Code int    `json:"code"`
 	}
 	_ = json.Unmarshal(w.Body.Bytes(), &v)
+	if os.Getenv("C11_DEBUG") != "" && w.Code != 200 {
+		fmt.Fprintf(os.Stderr, "%s %s -> %d %q\n", t.method, t.url, w.Code, w.Body.String())
+	}
 	if w.Code == 200 {
 		if v.Tag == "" {
 			return "E-notag"
@@ -735,6 +765,18 @@ func c11StarHistories(each func(ops []string, label string)) {
 	for _, h := range [][]string{{"R0.1", "R0.11"}, {"R0.11", "R0.1"}, {"R0.1", "R1.11", "D0"}, {"R0.11", "R1.1", "D1", "R0.1"}, {"R0.2", "R0.11", "R0.2"},
 		{"L0.1", "R1.11", "R1.1", "R1.11"}, {"R2.11", "R2.5", "R2.11", "D2"}, {"R0.8", "R0.11", "R0.8"}} {
 		each(h, "same-services-other-methods")
+	}
+	// a second backend whose (newer) descriptors give a registered method one more binding: the binding is served; the
+	// connection that brought it is not dropped while another one serves the method (the extra binding would then be
+	// declared by no live descriptor, which is outside what the run judges: DESIGN 0.3, C11)
+	for _, h := range [][]string{{"R0.13"}, {"R0.13", "D0"}, {"R0.1", "R1.13"}, {"R1.13", "R0.1"}, {"L0.1", "R1.13"}, {"R0.1", "R1.13", "D0"},
+		{"R0.2", "R1.13", "D0", "R0.2"}, {"R0.1", "R0.13"}, {"R0.13", "R0.1"}, {"R2.8", "R1.13", "D2"}} {
+		each(h, "more-bindings-in-a-newer-deployment")
+	}
+	// a streaming method registered, served by two backends, dropped, re-registered
+	for _, h := range [][]string{{"R0.12", "D0"}, {"R0.12", "R1.12", "D0"}, {"R0.12", "R1.12", "D0", "D1"}, {"R0.12", "R0.1"}, {"R0.1", "R0.12", "D0", "R1.12"},
+		{"R2.12", "R0.3", "D2", "R2.12"}, {"L0.1", "R1.12", "D1"}} {
+		each(h, "streaming-method")
 	}
 	for _, a := range c11Alphabet {
 		each([]string{a, "L1.10"}, "fails-in-a-streaming-method")
